@@ -124,6 +124,7 @@ type Config struct {
 	Home         string
 	NoObserver   bool
 	NoFirstBlock bool
+	KeepBlocks   bool // keep every BlockResult in Chain.Blocks (from block 1 on)
 	Logger       log.Logger
 }
 
@@ -319,7 +320,7 @@ func PrepareChain(cfg Config) *Chain {
 	if !cfg.MaxGasSet && cfg.MaxGas == 0 {
 		cfg.MaxGas = -1
 	}
-	c := &Chain{Cfg: cfg, Enc: chainapp.RegisterEncodingConfig(), curVals: map[string]*abci.Validator{}}
+	c := &Chain{Cfg: cfg, Enc: chainapp.RegisterEncodingConfig(), curVals: map[string]*abci.Validator{}, KeepBlocks: cfg.KeepBlocks}
 	c.DB = cfg.DB
 	if c.DB == nil {
 		c.DB = dbm.NewMemDB()
